@@ -189,6 +189,11 @@ func (envs *Manager) GetActiveDetectors() system.IDMap {
 	envs.mu.RLock()
 	defer envs.mu.RUnlock()
 
+	return envs.activeDetectors()
+}
+
+// activeDetectors returns the detectors of all known environments. The caller must hold envs.mu.
+func (envs *Manager) activeDetectors() system.IDMap {
 	response := make(system.IDMap)
 	for _, env := range envs.m {
 		if env.workflow == nil { // we can only query for detectors post-workflow-load
@@ -396,6 +401,15 @@ func (envs *Manager) CreateEnvironment(workflowPath string, userVars map[string]
 		WithField("level", infologger.IL_Devel).
 		Debug("envman write lock")
 	envs.mu.Lock()
+	// The check above was made against the detectors active when the request came in. Workflow loading and
+	// cleanup took a while: another environment with one of our detectors may have been registered since.
+	// We check again, this time in the same critical section as the registration.
+	for det := range envs.activeDetectors() {
+		if _, needed := neededDetectors[det]; needed {
+			envs.mu.Unlock()
+			return env.id, fmt.Errorf("detector %s is already in use", det.String())
+		}
+	}
 	envs.m[env.id] = env
 	envs.pendingStateChangeCh[env.id] = env.stateChangedCh
 	envs.mu.Unlock()
